@@ -111,6 +111,7 @@ ST_LoopBackEdge(s) ==
         /\ Len(s.H[x].be) = 1
         /\ InnerHeader(s.H, s.H[x].be[1]) = InnerHeader(s.H, r)
         /\ InnerHeader(s.H, r) # "?"
+        /\ s.H[x].be[1] \in HeaderChain(s.H, r)       \* ... and names that header (or the region it is the header of)
 \* no back edge outside loop regions, and none on a region block itself
 ST_NoStrayBackEdge(s) ==
   /\ \A r \in Regions(s.H) : s.H[r].be = <<>>
